@@ -4,7 +4,7 @@
    changes of the daemon behind the tracker's back), every cid, every filter mask f : N.
    Cluster-wide part: every member list, allocation list and reply vector. *)
 From V Require Import Base.Common Model.C05_Tracker Model.C05_Check Model.C06_Check Model.C06_Global Model.C06_GlobalCheck
-  Proofs.C05_Tracker Proofs.C06_Status Proofs.C06_Global Proofs.C06_Monitor Proofs.C06_MonitorT.
+  Proofs.C05_Tracker Proofs.C06_Status Proofs.C06_Global Proofs.C06_Monitor Proofs.C06_MonitorT Proofs.C05_MonitorC Proofs.C06_MonitorQ.
 Open Scope N_scope.
 
 Definition reached (q n : nat) (ps : list (N * tpin)) (i : list (N * bool)) (evs : list event) : st := run (init q n ps i) evs.
@@ -166,3 +166,35 @@ Example c06_monitor_example :
   C06_GlobalCheck.check_case (9, GSlice 0 false [0; 1] [SList [(4, 0, 16)]; SErr] (global_slice 0 false [0; 1] [SList [(4, 0, 16)]; SErr])) = [].
 Proof. cbv zeta. split; [intros d r H; simpl in H; destruct H as [E|[E|[E|[]]]]; inversion E; subst; auto|].
   split; [simpl; repeat constructor; simpl; intuition discriminate|]. repeat split; vm_compute; reflexivity. Qed.
+
+(* ---- tracker views, the monitors about quiescence and pending work (codes 20, 21, 24) ---- *)
+
+(* soundness, codes 20 / 21: at every quiescent observation the class Status reports for a listed cid, resp. the class of its
+   listing entry, is one the script allows (expected_spec over the monitor's record sp6: error if the last finished pin / unpin
+   of the cid failed - sharded also allowed for a meta pin -; otherwise unpinned / sharded / remote / pinned-or-error by the
+   shared state and the daemon as observed) *)
+Theorem truthful_monitor_sound cf pre e o post c : o_quiescent o = true -> In c (nrange (ncid_of cf)) ->
+  (~ In 20 (spec_codes6 cf (pre ++ (e, o) :: post)) -> expected_spec (sp6_after cf (pre ++ [(e, o)])) o c (class_bits (o_st o c))) /\
+  (~ In 21 (spec_codes6 cf (pre ++ (e, o) :: post)) -> expected_spec (sp6_after cf (pre ++ [(e, o)])) o c (entry_class (o_all o) c)).
+Proof. exact (truthful_monitor_sound_l cf pre e o post c). Qed.
+Print Assumptions truthful_monitor_sound.
+
+(* soundness, code 24: a listed cid shown as pinning / unpinning has a call in flight; one shown as queued waits behind a call *)
+Theorem pending_monitor_sound cf pre e o post c : ~ In 24 (spec_codes6 cf (pre ++ (e, o) :: post)) -> In c (nrange (ncid_of cf)) ->
+  (o_st o c = 32 \/ o_st o c = 64 -> exists k d, inflight_of (o_inflight o) c = Some (k, d)) /\
+  (o_st o c = 512 \/ o_st o c = 1024 -> o_inflight o <> []).
+Proof. exact (pending_monitor_sound_l cf pre e o post c). Qed.
+Print Assumptions pending_monitor_sound.
+
+(* completeness, code 24: with at least one pin worker, the model's own observations never raise it, along every event list
+   (uses the dispatch fact: a current entry still queued means the workers of its queue are all busy) *)
+Theorem model_pending_pass q np ps i nc fs evs x : (0 < np)%nat -> ~ In 24 (spec_walk6 nc x (mtrace nc fs (init q np ps i) evs)).
+Proof. exact (model_pending_pass_l q np ps i nc fs evs x). Qed.
+Print Assumptions model_pending_pass.
+
+Example c06_pending_example :
+  let evs := [ETrack (mk_pin 0 false false true 7); ETrack (mk_pin 1 false false false 8); EComplete 0 false; EComplete 1 true] in
+  let cf : cfg := (1%nat, 1%nat, 2, [], []) in
+  spec_codes6 cf (mtrace 2 [0; 16] (init_of cf) evs) = [] /\
+  map (fun eo => o_status (snd eo)) (mtrace 2 [] (init_of cf) evs) = [[32; 128]; [32; 512]; [16; 32]; [16; 4]].
+Proof. vm_compute. split; reflexivity. Qed.
